@@ -325,7 +325,7 @@ func (r *Run) supervise(stop chan struct{}) {
 			if ee, ok := err.(*exec.ExitError); ok && (ee.ExitCode() == 137 || ee.ExitCode() == 124 || ee.ExitCode() < 0) {
 				hung = true
 			}
-			if hung && (r.Prop == "C06" || r.Prop == "C07") {
+			if hung && (r.Prop == "C06" || r.Prop == "C07" || r.Prop == "C15") { // properties whose statement includes that the call returns (C15: "the client gets status 500")
 				fmt.Printf("VIOLATION property=%s replay=%s\n", r.Prop, path)
 				fmt.Printf("  kind=hang:%s case does not return (also not in an isolated 90s re-run)\n", kind)
 				atomic.AddInt64(&r.violations, 1)
